@@ -143,7 +143,9 @@ func (p *MultilineAction) Do(event *pipeline.Event) pipeline.ActionResult {
 
 			if p.cutOffEventByLimit {
 				offset := sizeAfterAppend - p.maxEventSize
-				p.eventBuf = append(p.eventBuf, logFragment[1:logFragmentLen-1-offset]...)
+				content := logFragment[1 : logFragmentLen-1]
+				// the fragment is an escaped string: never cut inside an escape sequence
+				p.eventBuf = append(p.eventBuf, content[:escapedCutLen(content, len(content)-offset)]...)
 				p.cutOffEvent = true
 
 				p.logger.Errorf("event chunk will be cut off due to max_event_size, source_name=%s, namespace=%s, pod=%s", event.SourceName, ns, pod)
@@ -226,6 +228,26 @@ func (p *MultilineAction) Do(event *pipeline.Event) pipeline.ActionResult {
 	p.resetLogBuf()
 
 	return pipeline.ActionPass
+}
+
+// escapedCutLen returns how many bytes of the escaped string s to keep so that
+// at most limit bytes remain and no escape sequence is split.
+func escapedCutLen(s string, limit int) int {
+	i := 0
+	for i < len(s) && i < limit {
+		n := 1
+		if s[i] == '\\' {
+			n = 2
+			if i+1 < len(s) && s[i+1] == 'u' {
+				n = 6
+			}
+		}
+		if i+n > limit || i+n > len(s) {
+			break
+		}
+		i += n
+	}
+	return i
 }
 
 func (p *MultilineAction) resetLogBuf() {
